@@ -17,7 +17,11 @@ import QV.Gen.Tables
 
 Quirk `bindDropsType` (on = the code as it is): the injected assignment is the bare literal
 `k = v`; the declared `Parameter[T]` is dropped, so in `WAlg` the constant takes the smallest
-`Qint` type of `const_to_qtype`.  Off: the literal is coerced to `T` (`Stmt.assign k (some T) …`).
+`Qint` type of `const_to_qtype`.  Off (the repaired `bind`, docs/fixes/C08-bind-typed-constants.diff):
+a keyword value that is a value of the declared type (`isValueOf` = `is_value_of`) is injected as the
+typed assignment `k: T = v` (`Stmt.ty = some T`), which the translator reads as the typecast `T(v)`
+(`cast`); any other value (an annotation that is no builtin type, an int that does not fit `Qint[n]`,
+a wrong shape) is still injected as the bare literal.
 -/
 namespace QV.Bind
 
@@ -111,7 +115,8 @@ def toValList : List PyVal → List Exp
   | v :: l => toVal v :: toValList l
 end
 
-/-- `x = e`, or with `ty = some T` the typed form `x: T = e` (only produced by the repaired bind) -/
+/-- `x = e`, or with `ty = some T` the typed form `x: T = e` (only produced by the repaired bind, with a
+    constant `e`; the translator reads it as the typecast `T(e)`) -/
 structure Stmt where
   target : String
   ty : Option Ty
@@ -230,17 +235,40 @@ def Prog.declTy (p : Prog) (k : String) : Option Ty :=
   | some t => t
   | none => none
 
+mutual
+/-- `is_value_of(ann, w)` of the repaired `bind`: `w` is a value of the declared type — a `bool` for
+    `bool`; an `int` with `0 ≤ w < 2^n` for a builtin `Qint[n]` (`QV.Gen.qintTypes`); an iterable of the
+    right length, element-wise, for `Tuple[..]` / `Qlist[T, n]` / `Qmatrix[T, n, m]` (all of them non-empty
+    `Ty.tuple`s).  `Ty.other` (an annotation that is none of these) has no values. -/
+def isValueOf : Ty → PyVal → Bool
+  | .bool, .atom (.b _) => true
+  | .qint w, .atom (.i v) =>
+      (QV.Gen.qintTypes.map (·.2)).contains w && decide (0 ≤ v) && decide (v < ((2 ^ w : Nat) : Int))
+  | .tuple ts, .iter vs => !ts.isEmpty && isValueOfList ts vs
+  | _, _ => false
+def isValueOfList : List Ty → List PyVal → Bool
+  | [], [] => true
+  | t :: ts, v :: vs => isValueOf t v && isValueOfList ts vs
+  | _, _ => false
+end
+
+/-- the type the repaired `bind` keeps for keyword `k = v`: the declared one when `v` is a value of it -/
+def Prog.keptTy (p : Prog) (k : String) (v : PyVal) : Option Ty :=
+  match p.declTy k with
+  | some t => if isValueOf t v then some t else none
+  | none => none
+
 /-- first keyword that is not a parameter, in keyword order (the loop of `bind`) -/
 def firstUnknown (params : List String) : List (String × PyVal) → Option String
   | [] => none
   | (k, _) :: l => if params.contains k then firstUnknown params l else some k
 
-/-- the type the injected constant of keyword `k` is coerced to: none with the quirk -/
-def tyOf (q : Quirks) (p : Prog) : String → Option Ty :=
-  fun k => if q.bindDropsType then none else p.declTy k
+/-- the type the injected constant of keyword `k = v` is given: none with the quirk -/
+def tyOf (q : Quirks) (p : Prog) : String → PyVal → Option Ty :=
+  fun k v => if q.bindDropsType then none else p.keptTy k v
 
-def injectedWith (ty : String → Option Ty) (kv : List (String × PyVal)) : List Stmt :=
-  kv.map fun kv => ⟨kv.1, ty kv.1, toVal kv.2⟩
+def injectedWith (ty : String → PyVal → Option Ty) (kv : List (String × PyVal)) : List Stmt :=
+  kv.map fun kv => ⟨kv.1, ty kv.1 kv.2, toVal kv.2⟩
 
 def injected (q : Quirks) (p : Prog) (kv : List (String × PyVal)) : List Stmt :=
   injectedWith (tyOf q p) kv
@@ -283,11 +311,12 @@ def constVal (A : Alg) (ty : Option Ty) (v : PyVal) : Option A.V :=
     | none => some x
     | some t => A.cast t x
 
-/-- the keyword values as values of `A`, keyword `k` coerced to `ty k` -/
-def kvVals (A : Alg) (ty : String → Option Ty) : List (String × PyVal) → Option (List (String × A.V))
+/-- the keyword values as values of `A`, keyword `k = v` coerced to `ty k v` -/
+def kvVals (A : Alg) (ty : String → PyVal → Option Ty) :
+    List (String × PyVal) → Option (List (String × A.V))
   | [] => some []
   | (k, v) :: l =>
-      match constVal A (ty k) v, kvVals A ty l with
+      match constVal A (ty k v) v, kvVals A ty l with
       | some x, some r => some ((k, x) :: r)
       | _, _ => none
 
@@ -306,7 +335,7 @@ def merge {V : Type} (vals : List (String × V)) : List Arg → List V → Optio
         | x :: xs' => (merge vals as xs').map (x :: ·)
 
 /-- the specification: the unbound function called with the parameters set -/
-def specialised (A : Alg) (ty : String → Option Ty) (p : Prog) (kv : List (String × PyVal))
+def specialised (A : Alg) (ty : String → PyVal → Option Ty) (p : Prog) (kv : List (String × PyVal))
     (xs : List A.V) : Option A.V :=
   (kvVals A ty kv).bind fun vals => (merge vals p.args xs).bind fun all => Sem A p all
 
@@ -509,7 +538,9 @@ def wBin (q : Quirks) (op : BinOp) (x y : WV) (lit : Option Int) : Option WV :=
 mutual
 def wCast : Ty → WV → Option WV
   | .bool, .b v => some (.b v)
-  | .qint w, .q l => if l.length ≤ w then some (.q (wfill w l)) else none
+  -- the typecast `Qint_w(v)` of a constant that fits: exactly `w` bits (bits beyond `w` must be 0;
+  -- `const_to_qtype` may have typed the literal wider, e.g. 5 as a `Qint4`, declared `Qint[3]`)
+  | .qint w, .q l => if (l.drop w).all (!·) then some (.q (wfill w (l.take w))) else none
   | .tuple ts, .tup vs => (wCastList ts vs).map .tup
   | _, _ => none
 def wCastList : List Ty → List WV → Option (List WV)
